@@ -180,7 +180,9 @@ NESTED_NEXT_V_RE = re.compile(r"next%3D%252Fwatch%253Fv%253D([^%&#]+)", re.I)
 FRAGMENT_V_RE = re.compile(
     r"^(?:%2F|/)watch(?:%3F|\?)v(?:%3D|=)([a-zA-Z0-9_-]{11})", re.I
 )
-QUERY_LIST_RE = re.compile(QUERY_VALUE_TEMPLATE % r"list", re.I)
+# NOTE: a playlist id stops at a "?" too: what follows could be taken for a
+# redirection hint once the id sits in the canonical url
+QUERY_LIST_RE = re.compile(r"list=([^&#?]+)", re.I)
 
 YOUTUBE_VIDEO_URL_TEMPLATE = "https://www.youtube.com/watch?v=%s"
 YOUTUBE_USER_URL_TEMPLATE = "https://www.youtube.com/user/%s"
